@@ -55,7 +55,7 @@ def build(cfg, rng, tr):
       o['basis'] = cfg['opt']
       o['n_basis'] = 8 * d if cfg['opt'] == 'triplet_diffs' else None
   if name == 'RCA_Supervised':
-    cap = int(sum(c // 2 for c in np.bincount(tr['y'])))
+    cap = int(sum(c // 2 for c in np.unique(tr['y'], return_counts=True)[1]))
     o['n_chunks'] = min(6, cap)
   if name in ('SDML', 'SDML_Supervised'):
     # keep the graphical-lasso input positive definite (the stated quantifier): balance_param is
@@ -115,13 +115,15 @@ def gen_trace(recipe):
     name = cfg['cls']
     per = max(4, int(np.ceil(4.0 * cfg['d'] / cfg['ncls'])) + 1)
     X, y = gen.dataset(rng, d=cfg['d'], n_classes=cfg['ncls'], per_class=per)
+    if recipe.get('relabel') and gen.KIND[name] == 'sup':
+      y = gen.relabel(rng, y)         # class ids with gaps / not starting at 0
     tr = gen.training(rng, name, X=X, y=y)
     if est is None:
       est, opts = build(cfg, rng, tr)
     else:
       # refit of the SAME object on data of another dimensionality (same parameters)
       if name == 'RCA_Supervised':
-        est.set_params(n_chunks=min(6, int(sum(c // 2 for c in np.bincount(tr['y'])))))
+        est.set_params(n_chunks=min(6, int(sum(c // 2 for c in np.unique(tr['y'], return_counts=True)[1]))))
       if name in ('SDML', 'SDML_Supervised'):
         _, o2 = build(cfg, np.random.default_rng(1), tr)
         est.set_params(balance_param=min(est.balance_param, o2['balance_param']))
@@ -187,7 +189,7 @@ def run(ctx):
         if others:
           d2 = others[int(rng.integers(len(others)))]
           seq.append(index[key(c)][d2])
-      rs.append(dict(cfgs=seq, seed=int(rng.integers(1 << 30))))
+      rs.append(dict(cfgs=seq, seed=int(rng.integers(1 << 30)), relabel=bool(rng.integers(2))))
   ctx.rule = ('every configuration enumerated by TLC from Options.tla (17 estimators x init/prior/basis x '
               'embedding_type x k x n_components x n_features %d..%d x n_classes 2..3) is fitted on a generated '
               'well-formed training set, %d time(s), plus a refit of the same object on another dimensionality; '
